@@ -370,7 +370,12 @@ func c36Build(t *testing.T, base string) *c36Corpus {
 		}
 		fileTpl := s.add("https://example.com/f/", nextTpl(), "/{{.Version}}/{{.Path}}")
 		if ri == 2 {
-			fileTpl = s.add("javascript:alert(1)//", nextTpl(), "/{{.Path}}") // javascript: scheme
+			// script schemes in every spelling a browser accepts (case, leading blanks), and the other active ones
+			fileTpl = s.add([]string{"JavaScript:alert(1)//", "javascript:alert(1)//", " \tJAVASCRIPT:alert(1)//", "vbscript:msgbox(1)//",
+				"data:text/html,<script>alert(1)</script>"}[(int(verifkit.Seed())+verifkit.EnvInt("VERIF_C36_ROT", 0))%5], nextTpl(), "/{{.Path}}")
+		}
+		if ri == 1 {
+			fileTpl = s.add("DATA:text/html;x=", nextTpl(), "/{{.Version}}/{{.Path}}")
 		}
 		if ri == 3 {
 			fileTpl = [2]string{"", ""} // local print links
